@@ -447,7 +447,7 @@ func ruleNKeyFlow(c *engine.Context) *report.Rule {
 func ruleNNumConv(c *engine.Context) *report.Rule {
 	r := report.NewRule("N-NUMCONV", "index and number texts are converted base-10 by strconv on the captured text unmodified", 2)
 	p := c.P
-	for _, fn := range parseFuncs(c, true) {
+	for _, fn := range parseFuncs(c, false) { // a conversion helper may be expanded into a grammar action
 		for _, b := range fn.Blocks {
 			for _, ins := range b.Instrs {
 				call, ok := ins.(*ssa.Call)
